@@ -43,7 +43,7 @@ Proof.
   - (* Range *) apply fn_rang_ne.
 Qed.
 
-Lemma leaf_ne e : ParserShape.is_leaf e = true -> ne (render o2 e).
+Lemma leaf_ne e : Shape.is_leaf e = true -> ne (render o2 e).
 Proof.
   destruct e as [l op r bo fu]. intros H s.
   assert (Hr : r = VNil) by (destruct op, l, r; cbn in H; try discriminate; reflexivity). subst r.
@@ -68,7 +68,7 @@ Qed.
 Theorem render_nonempty_sz : forall (n : nat) e, (esize e <= n)%nat -> wf true e = true -> ne (render o2 e).
 Proof.
   induction n as [|n IH]; intros e Hs W; [destruct e; cbn in Hs; lia|].
-  destruct (ParserShape.is_leaf e) eqn:Lf; [apply leaf_ne; exact Lf|].
+  destruct (Shape.is_leaf e) eqn:Lf; [apply leaf_ne; exact Lf|].
   destruct e as [l op r bo fu]. cbn in Hs. intros s. rewrite render_eq.
   destruct (serialize o2 l) as [[lf [el|]]|] eqn:El; cbn [bind]; try discriminate.
   destruct (serialize o2 r) as [[rt [er|]]|] eqn:Er; cbn [bind]; try discriminate.
